@@ -11,6 +11,15 @@ from concurrent.futures import ThreadPoolExecutor
 import vlib
 
 PROPS = "Properties_C03"
+# leaf functions / constants of hash.c are re-translated from the C source on every run (tools/translate_leaf.py ->
+# coq/gen/Leaf.v, Constants.v) and re-proved equal to the model's (coq/Properties_leaf_hash.v)
+EXTRA_PROPS = ["Properties_leaf_hash"]
+
+
+def REGEN(ctx):
+    vlib.regen_leaf(ctx, ["Hash"])
+
+
 HFS = ["const", "id", "mod4", "mult", "special"]
 OFFS = [0, 8, 24]
 M64 = (1 << 64) - 1
